@@ -188,6 +188,10 @@ def r_bypass(ck: Checker, ncls: set[str]) -> None:
         if cat is not None:
             ck.holds("R-BYPASS-WRITE", f, w.node, what, kind=w.kind, receiver=w.recv, attr=w.attr, category=cat)
             continue
+        if field_name_write(w):
+            ck.violation("R-BYPASS-WRITE", f, w.node, what, construct=f"{w.kind}({w.recv}, {norm(w.node.args[1])}, ...) assigns dataclass fields by computed name to an object that "
+                         "was constructed before (the frozen node is changed after its ids were computed)", receiver=w.recv)
+            continue
         ev = node_evidence(w.receiver, f, ncls)
         if ev:
             ck.violation("R-BYPASS-WRITE", f, w.node, what,
@@ -324,6 +328,61 @@ def r_bypass_typed(ck: Checker, ncls: set[str]) -> None:
         ck.incomplete("R-BYPASS-TYPED", None, None, f"only {n} write receivers carry an inferred type (>= 30 expected)")
 
 
+def field_name_write(w) -> bool:
+    """object.__setattr__(x, f.name, v) / setattr(x, f.name, v): the attribute name is read from a dataclass Field object."""
+    n = w.node
+    return w.kind in ("object.__setattr__", "setattr") and w.attr is None and isinstance(n, ast.Call) and len(n.args) >= 2 \
+        and isinstance(n.args[1], ast.Attribute) and n.args[1].attr == "name" and not (isinstance(w.receiver, ast.Name) and w.receiver.id in ("cls", "clz"))
+
+
+def r_field_writes(ck: Checker, rule: str) -> None:
+    """No field of a node is assigned after construction (its digest would not describe it any more): shared with C01."""
+    from ..effects import scan_writes
+    mods = [ck.repo.mod("pyoak.node"), ck.repo.mod("pyoak.visitor"), ck.repo.mod("pyoak.serialize")]
+    what = "no dataclass field of a node is assigned through the frozen bypass after the node was constructed (content_id describes the values the node holds)"
+    hits = [w for w in scan_writes(ck.repo, mods) if field_name_write(w) and not (norm(w.receiver) == "self" and w.func.qualname.endswith(".__post_init__"))]
+    if hits:
+        w = hits[0]
+        ck.violation(rule, w.func, w.node, what, construct=f"{w.func.qualname}: {norm(w.node)[:70]} stores field values on {w.recv} after its content_id was computed")
+    else:
+        ck.holds(rule, (ck.repo.mod("pyoak.node").rel, "*"), None, what)
+
+
+def r_payload_inplace(ck: Checker) -> None:
+    """The mapping handed to __post_serialize__ is new, but what sits inside it may be the node's own values (mashumaro passes the
+    values of untyped fields through).  A function that edits its argument in place *and* descends into the argument's elements edits
+    those values."""
+    mods = [ck.repo.mod("pyoak.serialize"), ck.repo.mod("pyoak.node"), ck.repo.mod("pyoak.origin")]
+    what = "serialization edits only the top-level mapping it was given, never the values nested inside it (they may be the node's own objects)"
+    EDITS = ("pop", "popitem", "clear", "update", "setdefault", "remove", "append", "extend", "insert", "sort", "reverse", "__delitem__", "__setitem__")
+    n = 0
+    allfns = [(m_, fn_) for m_ in mods for fn_ in ast.walk(m_.tree) if isinstance(fn_, ast.FunctionDef)]  # (helpers of later origin included, as written)
+    for m_, fn in allfns:
+        f = (m_.rel, fn.name)
+        ps = {a.arg for a in fn.args.args + fn.args.kwonlyargs} - {"self", "cls"}
+        if not ps:
+            continue
+        n += 1
+        for p_ in sorted(ps):
+            edits = [c for c in ast.walk(fn) if (isinstance(c, ast.Call) and isinstance(c.func, ast.Attribute) and c.func.attr in EDITS and norm(c.func.value) == p_)
+                     or (isinstance(c, ast.Subscript) and isinstance(c.ctx, (ast.Store, ast.Del)) and norm(c.value) == p_)]
+            if not edits:
+                continue
+            # elements of p_: loop / comprehension variables over p_, p_.values(), p_.items()
+            elems: set[str] = set()
+            for lp in ast.walk(fn):
+                if isinstance(lp, (ast.For, ast.comprehension)) and norm(lp.iter) in (p_, f"{p_}.values()", f"{p_}.items()", f"list({p_})", f"list({p_}.values())"):
+                    elems |= {x.id for x in ast.walk(lp.target) if isinstance(x, ast.Name)}
+            own = fn.name
+            rec = [c for c in ast.walk(fn) if isinstance(c, ast.Call) and (dotted(c.func) or "").split(".")[-1] == own
+                   and any(isinstance(x, ast.Name) and x.id in elems for a_ in c.args for x in ast.walk(a_))]
+            if rec:
+                ck.violation("R-INPLACE", f, edits[0], what, construct=f"{fn.name}: edits its argument {p_} in place ({norm(edits[0])[:40]}) and calls itself on the elements of {p_}: "
+                             "nested values of the payload (the node's own dict / list values of untyped fields) are changed by serializing")
+                return
+    ck.holds("R-INPLACE", (ck.repo.mod("pyoak.serialize").rel, "*"), None, what, functions=n)
+
+
 def run(ck: Checker) -> None:
     ck.explanation = (
         "Effect/ownership analysis over all non-legacy modules: every node class is a frozen dataclass without "
@@ -340,6 +399,7 @@ def run(ck: Checker) -> None:
     ck.guard("R-FROZEN", lambda: r_frozen(ck, ncls))
     ck.guard("R-BYPASS-WRITE", lambda: r_bypass(ck, ncls))
     ck.guard("R-INPLACE", lambda: r_inplace(ck, ncls))
+    ck.guard("R-INPLACE", lambda: r_payload_inplace(ck))
     from . import templates_rules
     ck.guard("R-GEN-PURE", lambda: templates_rules.r_gen_pure(ck))
     # registry membership of an existing node changes only as specified for detach / replace
